@@ -49,7 +49,7 @@ PROPS = {
     'C16': _p(lambda t: ['bound', 'boundfrag', 'av', 'layout', 'contract', 'fraginit'],
               rule='a case is a boundary instance: timestamps are multiples of a unit U in {2^30, 2^31-1, 2^31, 2^32-1, 2^32} so that small multiples land just below / on / above the 32-bit limits of sample deltas, total durations and composition offsets; dimension / parameter-set / rate boundaries come from the layout and init-segment corpora; non-trivial when some derived quantity is within one step of a field boundary',
               assumptions=['box sizes / chunk offsets around 4 GiB are out of reach of any execution in this sandbox and are not covered', 'values are compared through quotient/remainder w.r.t. the unit because TLC integers are 32-bit']),
-    'C12': _p(lambda t: ['extreme', 'extremefrag', 'mutbytes', 'mutframes', 'contract', 'reject', 'finish', 'conv', 'av', 'frag', 'fraginit', 'fn14', 'fncfg', 'fnobu',
+    'C12': _p(lambda t: ['extreme', 'extremefrag', 'mutbytes', 'mutframes', 'contract', 'reject', 'finish', 'conv', 'av', 'frag', 'fraginit', 'fn14', 'fncfg', 'fnobu', 'fnopus', 'metalayout',
                          'meta', 'layout', 'codeccfg', 'adts', 'bound', 'boundfrag', 'sink', 'valtab', 'dates'], level='exploration',
               rule='a case is a (public item, input) pair: argument extremes and arbitrary f64 bit patterns for every entry point, every prefix and single-bit flip of generated bitstream headers, the exhaustive small-scope byte strings, all contract probes, and every execution of every other corpus (a panic or hang anywhere is a C12 signature); non-trivial when the input is not the valid baseline',
               assumptions=['small-scope exhaustion plus grammar-directed mutation, not a proof over all byte strings', 'the harness is built with overflow checks and debug assertions; a panic is caught with catch_unwind, a call that does not return within the watchdog limit is reported as a hang']),
@@ -70,7 +70,7 @@ PROPS = {
     'C19': _p(lambda t: ['layout', 'fraginit', 'frag', 'bound', 'boundfrag'],
               rule='a case is an emitted byte stream with a distinct configuration (codec x audio x metadata x layout x dimensions / init segment / media segment); every one is non-trivial'),
 
-    'C14': _p(lambda t: ['fn14', 'adts'],
+    'C14': _p(lambda t: ['fn14', 'adts', 'fncfg'],
               rule='a case is an input byte string (all strings up to the length bound over {00,01,02,03,FF}, enumerated completely; completeness is itself checked by TLC against the canonical enumeration) or an ADTS header tuple (frame length x protection flag x buffer length x sampling index x channel configuration); non-trivial when it can contain a start code (length >= 3)',
               assumptions=['exhaustive only up to the length bound and over the 5-byte alphabet, which contains every start-code-relevant byte class (00, 01, other low values, a high value)', 'ADTS payloads are recovered from finished files by the independent reader']),
 
@@ -87,9 +87,9 @@ PROPS = {
               rule='as C10; non-trivial when >= 2 segments are emitted',
               assumptions=['bounded: sequences up to the stated length over the stated dts-step / composition-offset alphabets, plus seeded random runs of up to 100 samples', 'the constant-cadence clause is judged only when every segment holds >= 2 samples']),
 
-    'C04': _p(lambda t: ['contract', 'reject', 'finish', 'bound'],
+    'C04': _p(lambda t: ['contract', 'reject', 'finish', 'bound', 'fnopus', 'fncfg', 'fnobu'],
               rule='a case is a (state-building prefix, probe call) history enumerated by TLC from MCMuxide (scenarios contract/reject/finish); non-trivial when some call is rejected or >= 2 calls are accepted'),
-    'C05': _p(lambda t: ['reject', 'frag'],
+    'C05': _p(lambda t: ['reject', 'frag', 'bound'],
               rule='a case is a history pair (H, H minus its rejected calls), both executed and compared; non-trivial when H contains a rejected call followed by an accepted call or a finish'),
     'C06': _p(lambda t: ['finish', 'av', 'contract', 'sink'],
               rule='a case is a history with >= 1 finish attempt and >= 1 other call'),
